@@ -257,7 +257,10 @@ class CouplingLevyCopulaSimulationFixedTimes(CouplingLevyCopulaSimulation):
                 fines_states_values[:, k + 1] = slice_fine_values[-1]
                 coarse_states_values[:, k + 1] = slice_coarse_values[-1]
 
-        return fines_states_values, coarse_states_values
+        # running sum of the jumps at each date
+        return np.cumsum(fines_states_values, axis=1), np.cumsum(
+            coarse_states_values, axis=1
+        )
 
     def simulate_one_path_with_coupling(self):
         # simulate the jump part first
@@ -312,19 +315,26 @@ class CouplingLevyCopulaSimulationWithJumpTimes(CouplingLevyCopulaSimulation):
         fine_states_increments = fine_mc.states_increments
         fines_states_allvalues = fine_mc.values
         jump_times = fine_mc.times
-        coarse_states_values = np.empty_like(fines_states_allvalues)
 
-        for k, (slice_fine_states, slice_fine_values) in enumerate(
-            zip(fine_states_increments, fines_states_allvalues)
+        # the values of each slice start from 0: carry the running sums from one slice to the next
+        fine_offset = np.zeros(self._dimension)
+        coarse_offset = np.zeros(self._dimension)
+        fine_slices = [np.empty(shape=(0, self._dimension))]
+        coarse_slices = [np.empty(shape=(0, self._dimension))]
+        for slice_fine_states, slice_fine_values in zip(
+            fine_states_increments, fines_states_allvalues
         ):
             if slice_fine_states:
                 slice_coarse_values = self._coupling_states_for_a_slice(
                     slice_fine_states
                 )
-                coarse_states_values[k] = slice_coarse_values
+                fine_slices.append(slice_fine_values + fine_offset)
+                coarse_slices.append(np.array(slice_coarse_values) + coarse_offset)
+                fine_offset = fine_slices[-1][-1]
+                coarse_offset = coarse_slices[-1][-1]
 
-        fines_states_values = np.concatenate(fines_states_allvalues).T
-        coarse_states_values = np.concatenate(coarse_states_values).T
+        fines_states_values = np.concatenate(fine_slices).T
+        coarse_states_values = np.concatenate(coarse_slices).T
 
         return jump_times, fines_states_values, coarse_states_values
 
